@@ -32,6 +32,15 @@ def exercise(sx, world, kind, avail=None, max_cmds=None, silence=False):
     sim = world.sim
     if silence:
         sim.hook = Silence(sx)
+    sim.max_cmds = max_cmds if max_cmds is not None else 20000
+    try:
+        return _exercise(sx, world, kind, avail)
+    except tags.TooManyCommands:
+        sx.check(False, "unbounded-number-of-commands:" + kind)
+
+
+def _exercise(sx, world, kind, avail):
+    sim = world.sim
     tag = world.fresh_tag()
     if tag is None:
         sx.reach("activate_none")
@@ -53,8 +62,6 @@ def exercise(sx, world, kind, avail=None, max_cmds=None, silence=False):
         if tag.ndef is not None:
             sx.check(tag.ndef.length <= tag.ndef.capacity, "length-exceeds-capacity-after-reread:" + kind)
         res = "ndef"
-    if max_cmds is not None:
-        sx.check(sim.ncmd <= max_cmds, "unbounded-number-of-commands:" + kind)
     return res
 
 
@@ -202,13 +209,16 @@ def t1_gone(sx, hr, size, n):
 def t3_attr(sx, checksum_ok, nblocks, with_sys):
     w = worlds.T3World(sx, 4, 3, 5, 0, extra=nblocks - 6, fill=0x40)
     m = w.sim.mem
-    for i in range(0, 14):
+    # with a correct checksum only version, Nbw, Nmaxb (low), WriteF and RWFlag
+    # are symbolic (a 14-term symbolic sum in every later query is too slow);
+    # with an arbitrary checksum all attribute bytes are
+    for i in (range(0, 14) if not checksum_ok else (0, 2, 4, 9, 10)):
         m[i] = sx.byte("a[%d]" % i)
     # Nbr is turned into a range() step by the reader: boundary set
     m[1] = sx.pick("nbr", [0, 1, 4, 255])
     # Ln becomes a range() extent and a slice bound in the reader: boundary sets
-    m[11] = sx.pick("ln_hi", [0, 0xFF])
-    m[12] = sx.pick("ln_mid", [0, 1]) if m[11] == 0 else 0xFF
+    m[11] = 0
+    m[12] = sx.pick("ln_mid", [0, 1, 0xFF])
     m[13] = sx.pick("ln_lo", [0, 1, 16, 17, 0x50, 0x51, 0xFF])
     # version, Nbw, Nmaxb, WriteF, RWFlag stay symbolic
     if checksum_ok:
@@ -280,7 +290,7 @@ def t4_cc(sx, field):
     elif field == "mlc":
         cc[5], cc[6] = sx.pick("mlc_hi", [0, 1]), sx.byte("mlc_lo")
     elif field == "tlv":
-        cc[7], cc[8] = sx.byte("tlv_t"), sx.byte("tlv_l")
+        cc[7], cc[8] = sx.byte("tlv_t"), sx.pick("tlv_l", [0, 5, 6, 7, 8, 9, 255])
     elif field == "fid":
         cc[9], cc[10] = sx.pick("fid_hi", [0xE1, 0x00, 0xFF]), sx.pick("fid_lo", [0x04, 0x03, 0x00, 0xFF])
     elif field == "size":
@@ -295,8 +305,8 @@ def t4_cc(sx, field):
 def t4_nlen(sx):
     w = worlds.T4World(sx, 0x20, 255, 255, 16, 3, fill=0x41)
     f = w.sim.files[0xE104]
-    f[0], f[1] = sx.pick("nlen_hi", [0, 1, 0xFF]), sx.byte("nlen_lo")
-    return exercise(sx, w, "tt4:nlen", max_cmds=4 * 70000 // 15)
+    f[0], f[1] = sx.pick("nlen_hi", [0, 1, 0xFF]), sx.pick("nlen_lo", [0, 1, 13, 14, 15, 0xFF])
+    return exercise(sx, w, "tt4:nlen", max_cmds=600)
 
 
 def t4_short_read(sx):
@@ -355,7 +365,7 @@ def partitions(tier):
     add("t1:hr:120", "t1_hr", size=120)
     add("t1:hr:512", "t1_hr", size=512)
     for cs in (True, False):
-        for nb in (6, 20):
+        for nb in ((6, 20) if (tier != "quick" or not cs) else (6,)):
             for ws in (True, False):
                 add("t3:attr:%s:%d:%s" % (cs, nb, ws), "t3_attr", checksum_ok=cs, nblocks=nb, with_sys=ws)
     add("t3:gone", "t3_gone", n=40)
